@@ -14,7 +14,7 @@
 (*   OnePerCommand  : when everything is delivered there is exactly one     *)
 (*                    reply per frame, in order, each to the arguments that *)
 (*                    were encoded, in the transport of its syntax, and     *)
-(*                    nothing is left in the carry-over buffer              *)
+(*                    nothing is left in the carry-over buffers             *)
 (*                                                                          *)
 (* hist (segment lengths) is hidden from the VIEW; Emit prints one          *)
 (* behaviour per transition whose history has at most EmitChunks segments:  *)
@@ -66,12 +66,13 @@ OnePerCommand ==
          /\ conn.out[i].x = "cmd"
          /\ conn.out[i].args = Bytes(frames[i].a)
          /\ conn.out[i].t = Transport(KindOf(frames[i]))
-    /\ conn.carry = <<>>
+    /\ conn.carry = <<>> /\ conn.inb = <<>>
     /\ ~conn.crashed
     /\ conn.closed = IsHTTP(frames[Len(frames)])
 
 \* the carry-over buffer never holds a complete request
-CarryIncomplete == conn.carry # <<>> /\ ~conn.closed => ParseOne(conn.carry).st = "inc"
+CarryIncomplete == /\ conn.carry # <<>> /\ ~conn.closed => ParseOne(conn.carry).st = "inc"
+                   /\ ~conn.closed => conn.inb = <<>>      \* nothing that was read waits for the next read
 
 \* the expected replies are printed once per stream (with the unsplit behaviour), the other lines carry the cut only
 Emit == [][Len(hist') <= EmitChunks =>
